@@ -27,8 +27,12 @@ func coreC14(tier string) []RunSpec {
 
 func proofKey(p cashu.Proof, withDLEQ bool) string {
 	s := fmt.Sprintf("%d|%s|%s|%s|%s", p.Amount, p.Id, p.Secret, strings.ToLower(p.C), p.Witness)
-	if withDLEQ && p.DLEQ != nil {
-		s += "|" + strings.ToLower(p.DLEQ.E) + "|" + strings.ToLower(p.DLEQ.S) + "|" + strings.ToLower(p.DLEQ.R)
+	if withDLEQ {
+		if p.DLEQ != nil {
+			s += "|" + strings.ToLower(p.DLEQ.E) + "|" + strings.ToLower(p.DLEQ.S) + "|" + strings.ToLower(p.DLEQ.R)
+		} else {
+			s += "|nodleq"
+		}
 	}
 	return s
 }
@@ -62,9 +66,9 @@ func (ww *WW) RoundTrip(proofs cashu.Proofs, mintURL string) {
 	W := ww.W
 	for _, v4 := range []bool{false, true} {
 		for _, dleq := range []bool{false, true} {
-			hasAll := true
+			hasAll := true // false if some proof carries an incomplete DLEQ (no r): V4 cannot encode that
 			for _, p := range proofs {
-				if p.DLEQ == nil || p.DLEQ.R == "" {
+				if p.DLEQ != nil && p.DLEQ.R == "" {
 					hasAll = false
 				}
 			}
@@ -99,6 +103,7 @@ func (ww *WW) RoundTrip(proofs cashu.Proofs, mintURL string) {
 			if amt != proofs.Amount() {
 				W.Book.Violate("C14.amount", ver, "%s token amount %d, proofs sum to %d", ver, amt, proofs.Amount())
 			}
+			// with DLEQ requested every proof comes back with exactly the DLEQ it had (present, absent: partial sets too)
 			wantDLEQ := dleq && hasAll
 			exp := make(cashu.Proofs, len(proofs))
 			copy(exp, proofs)
@@ -220,6 +225,18 @@ func runC14(rc *RunCtx) {
 				wp[j].Witness = `{"signatures":["` + randHex(64) + `"]}`
 			}
 			ww.RoundTrip(wp, ww.mintURL(tok.Mint))
+			// partial DLEQ: every second proof handed over without its DLEQ
+			pp := make(cashu.Proofs, len(tok.Proofs))
+			copy(pp, tok.Proofs)
+			for j := range pp {
+				if j%2 == 1 {
+					pp[j].DLEQ = nil
+				}
+			}
+			if len(pp) > 1 {
+				ww.RoundTrip(pp, ww.mintURL(tok.Mint))
+				rc.S.Probe("c14_partial_dleq_token")
+			}
 			ww.Corrupted(tok)
 		}
 	})
